@@ -131,19 +131,21 @@ let content_case (c : case) (out : out_channel) =
   let exp = if !expected = [] then List.init (List.length clusters) nat_of_int else !expected in
   Printf.fprintf out "%s accepts %b\n" c.id (accepts !evs exp)
 
-let show_value (v : value res) : string =
+let show_value_c (cf : (n -> n -> string) option) (v : value res) : string =
   match v with
   | Err e -> show_res_err e
   | Ok (VUnsigned n) -> "u" ^ string_of_n n
   | Ok (VSigned z) -> "s" ^ string_of_z z
-  | Ok (VContent (p, c)) -> Printf.sprintf "c%s:%s" (string_of_n p) (string_of_n c)
+  | Ok (VContent (p, c)) ->
+    (match cf with
+     | None -> Printf.sprintf "c%s:%s" (string_of_n p) (string_of_n c)
+     | Some f -> Printf.sprintf "c%s:%s=%s" (string_of_n p) (string_of_n c) (f p c))
   | Ok (VArray b) -> "a" ^ show (ibytes b)
 
-let dir_dump (id : string) (f : n list) (out : out_channel) =
-  match dp_dump f with
-  | Err e -> Printf.fprintf out "%s open %s\n" id (show_res_err e)
-  | Ok idxs ->
-    Printf.fprintf out "%s open OK\n" id;
+let show_value = show_value_c None
+
+let print_indexes (id : string) (cf : (n -> n -> string) option) (idxs : index_dump res list) (out : out_channel) =
+    let show_value = show_value_c cf in
     List.iter (fun r ->
       match r with
       | Err e -> Printf.fprintf out "%s index ? %s\n" id (show_res_err e)
@@ -173,6 +175,41 @@ let dir_dump (id : string) (f : n list) (out : out_channel) =
                Printf.fprintf out "%s entry %s %d v=%s%s\n" id name j
                  (match vid with None -> "-" | Some v -> string_of_n v)
                  (String.concat "" (List.map (fun s -> " " ^ s) parts))) entries)) idxs
+
+let dir_dump (id : string) (f : n list) (out : out_channel) =
+  match dp_dump f with
+  | Err e -> Printf.fprintf out "%s open %s\n" id (show_res_err e)
+  | Ok idxs ->
+    Printf.fprintf out "%s open OK\n" id;
+    print_indexes id None idxs out
+
+let container_case (c : case) (out : out_channel) =
+  let main = ref [] and fs = ref [] in
+  List.iter (fun l ->
+    match l with
+    | ["main"; path] -> main := nbytes (read_file path)
+    | ["sibling"; name; path] ->
+      fs := (nbytes (List.init (String.length name) (fun i -> Char.code name.[i])), nbytes (read_file path)) :: !fs
+    | _ -> ()) c.lines;
+  match container_open !main !fs with
+  | Err e -> Printf.fprintf out "%s open %s\n" c.id (show_res_err e)
+  | Ok ct ->
+    Printf.fprintf out "%s open OK\n" c.id;
+    Printf.fprintf out "%s packcount %s\n" c.id (string_of_n ct.ct_manifest.mf_mh.mh_count);
+    let cf p ci =
+      match get_content ct !fs p ci with
+      | Err e -> show_res_err e
+      | Ok CNoPack -> "NOPACK"
+      | Ok (CMissing info) -> "MISSING:" ^ hex_of_bytes (ibytes info.pi_uuid)
+      | Ok CNoContent -> "NOCONTENT"
+      | Ok (CFound (_, _, loc, data)) ->
+        (match loc, data with
+         | CRaw (_, _), Some d -> show (ibytes d)
+         | CComp (algo, _, _, _, _, len), _ -> Printf.sprintf "COMP:%s:%s" (string_of_n algo) (string_of_n len)
+         | _, _ -> "?") in
+    (match container_dir_dump ct with
+     | Err e -> Printf.fprintf out "%s dir %s\n" c.id (show_res_err e)
+     | Ok idxs -> print_indexes c.id (Some cf) idxs out)
 
 (* comparison of a decoded value with a probe value token (u<dec>, s<dec>, a:<payload>) *)
 let cmp_value (v : value res) (tok : string) : comparison option =
@@ -238,6 +275,7 @@ let () =
       | "manifest" -> manifest_case c out
       | "content" -> content_case c out
       | "dir" -> dir_case c out
+      | "container" -> container_case c out
       | f -> failwith ("unknown family " ^ f)
     with e -> Printf.fprintf out "%s MODEL_EXN %s\n" c.id (Printexc.to_string e)) cases;
   close_out out
